@@ -23,3 +23,21 @@ func GoStart(site string) {
 		(*f)(site)
 	}
 }
+
+var yield atomic.Pointer[func(site string)]
+
+// SetYield installs (or, with nil, removes) the hook behind Yield.
+func SetYield(f func(site string)) {
+	if f == nil {
+		yield.Store(nil)
+		return
+	}
+	yield.Store(&f)
+}
+
+// Yield is placed by prep after statements that may wake another goroutine (close(ch)).
+func Yield(site string) {
+	if f := yield.Load(); f != nil {
+		(*f)(site)
+	}
+}
